@@ -179,7 +179,10 @@ def run_lines(binary, lines, timeout=600, env=None):
         outs.pop()
     crash = None
     if r.returncode != 0 or len(outs) != len(lines):
-        crash = {"kind": "exit", "code": r.returncode, "stderr": r.stderr[-3000:], "answered": len(outs)}
+        err = r.stderr
+        m = re.search(r"(ERROR: \w+Sanitizer[^\n]*|runtime error:[^\n]*|SUMMARY: [^\n]*)", err)
+        summary = (m.group(1) + " || ") if m else ""
+        crash = {"kind": "exit", "code": r.returncode, "stderr": summary + err[-2500:], "answered": len(outs)}
     return outs, crash
 
 
